@@ -158,6 +158,7 @@ struct World {
     /// a payload of the case is written as a `z` token (a write of megabytes): reads of the completion
     /// phase are large, the case is not projected onto the link model
     huge: bool,
+    any_reuse: bool,   // some flow id was taken a second time in this case (with or without leftovers)
     oracle_only: bool, // the case uses stimuli the model does not have (scheduling of application tasks): monitors only
     /// the frame-level writer was used (`wpush`)
     raw_push: bool,
@@ -283,6 +284,7 @@ impl World {
             mon: std::collections::BTreeMap::new(),
             huge: false,
             oracle_only: false,
+            any_reuse: false,
             raw_push: false,
             quiesced: false,
             probe: true,
@@ -441,19 +443,28 @@ impl World {
     /// stay strict. Only a reuse that meets leftovers of the previous incarnation is the known protocol
     /// weakness (flow ids carry no epoch) recorded in known_findings.txt.
     fn reuse_is_clean(&self, id: u32) -> bool {
-        if self.in_batch || self.sink_blocked[0] || self.sink_blocked[1] { return false; }
+        let r = self.reuse_is_clean_why(id);
+        if std::env::var("PVH_DBG_REUSE").is_ok() { eprintln!("reuse {id:08x}: {r:?}"); }
+        r.is_none()
+    }
+
+    /// `None` = clean; otherwise what of the previous incarnation is still around.
+    fn reuse_is_clean_why(&self, id: u32) -> Option<&'static str> {
+        if self.in_batch || self.sink_blocked[0] || self.sink_blocked[1] { return Some("batch or sink blocked"); }
         for e in 0..2 {
-            if self.wire[e].iter().any(|m| parse_head(m).is_some_and(|(op, fid)| op != 6 && fid == id)) { return false; }
-            if self.backlog[e][0] >= self.opts[e].accept_cap || (self.opts[e].bind_cap > 0 && self.backlog[e][1] >= self.opts[e].bind_cap) { return false; }
-            if self.pend[e].contains_key(&id) || self.bind_ids[e].contains(&id) || self.inc[e].values().any(|v| *v == id) { return false; }
-            if self.view[e].exited || self.view[e].terminated_by.is_some() || !self.view[e].mux_alive { return false; }
+            if self.wire[e].iter().any(|m| parse_head(m).is_some_and(|(op, fid)| op != 6 && fid == id)) { return Some("frames in flight"); }
+            if self.backlog[e][0] >= self.opts[e].accept_cap || (self.opts[e].bind_cap > 0 && self.backlog[e][1] >= self.opts[e].bind_cap) { return Some("receive loop parked"); }
+            // (a stream that sits unaccepted in an accept queue is a handle of its flow that nobody has dropped yet)
+            if self.backlog[e][0] > 0 { return Some("unaccepted streams"); }
+            if self.pend[e].contains_key(&id) || self.bind_ids[e].contains(&id) || self.inc[e].values().any(|v| *v == id) { return Some("request pending / unaccepted"); }
+            if self.view[e].exited || self.view[e].terminated_by.is_some() || !self.view[e].mux_alive { return Some("endpoint not running"); }
         }
         if let Some(port) = self.fid_port.get(&id) {
             for e in 0..2 {
-                if self.view[e].handles.iter().any(|h| h.alive && h.port == Some(*port)) { return false; }
+                if self.view[e].handles.iter().any(|h| h.alive && h.port == Some(*port)) { return Some("stream still held"); }
             }
         }
-        true
+        None
     }
 
     #[allow(clippy::too_many_lines)]
@@ -465,6 +476,7 @@ impl World {
             let drawn: Vec<u32> = self.sims[e].rng.drawn.lock().map(|d| d[n.min(d.len())..].to_vec()).unwrap_or_default();
             self.drawn_seen[e] += drawn.len();
             if std::env::var("PVH_DBG").is_ok() { eprintln!("drawn {e} {:x?} seen {:x?}", drawn, self.seen_ids); }
+            if drawn.iter().any(|id| self.seen_ids.contains(id)) { self.any_reuse = true; }
             if drawn.iter().any(|id| self.seen_ids.contains(id) && !self.reuse_is_clean(*id)) {
                 self.reused = true;
             }
@@ -904,7 +916,11 @@ impl World {
                             if let Some(hi) = self.est[e].get(&id).copied().and_then(|h| self.view[e].handles.get(h)) {
                                 if !self.in_batch && clean && !self.reused && up && hi.alive && !hi.eof && evl.contains(&reset_id.as_str()) {
                                     let msg = format!("endpoint {} reset flow {id:08x} on receiving a Push although its application holds the stream open for reading and both ends are conforming endpoints (receive window overrun)", NAMES[e]);
-                                    self.fail("C03", "reset-for-overrun", msg);
+                                    self.fail("C03", "reset-for-overrun", msg.clone());
+                                    // C06: … and whatever the reason, a stream both applications hold is reset
+                                    // by a frame of its own conforming peer: state that belongs to no current
+                                    // stream (a previous holder of the id, a stale cache) decided its fate
+                                    self.fail("C06", "live-stream-reset-on-push", msg);
                                 }
                             }
                         }
@@ -956,6 +972,9 @@ impl World {
             let et: Vec<&str> = ev.split(' ').collect();
             match et.as_slice() {
                 ["wire", m] => {
+                    // (judged before the frame itself joins the wire: is anything of a previous holder of its id left?)
+                    if parse_frame(m).is_some_and(|(op, id, _)| (op == 0 || op == 5) && self.seen_ids.contains(&id)) { self.any_reuse = true; }
+                    let reuse_meets_leftovers = parse_frame(m).is_some_and(|(op, id, _)| (op == 0 || op == 5) && self.seen_ids.contains(&id) && !self.reuse_is_clean(id));
                     self.wire[e].push_back((*m).to_string());
                     if let Some((op, id, _)) = parse_frame(m) {
                         if op == 4 { self.wire_push[e] += 1; }
@@ -975,7 +994,7 @@ impl World {
                             _ => {}
                         }
                         let reused_before = self.reused;
-                        if (op == 0 || op == 5) && self.seen_ids.contains(&id) && !self.reuse_is_clean(id) {
+                        if reuse_meets_leftovers {
                             self.reused = true;
                         }
                         if op != 6 {
@@ -1940,6 +1959,102 @@ fn late_future_case(r: &mut Rng, focus: Focus) -> World {
     w
 }
 
+/// C02 / C05 / C06: a stream is used and let go of on both endpoints (local abort, peer abort, or finished
+/// and dropped), everything in flight is delivered, and then the SAME flow id is taken for a new stream by
+/// either side: the id is free on both endpoints and nothing of the old stream leaks into the new one — its
+/// data arrives complete, in order, and its end-of-stream comes only when its writer finishes.
+fn reopen_same_id_case(r: &mut Rng, focus: Focus) -> World {
+    let oa = gen_opts(r, focus);
+    let ob = gen_opts(r, focus);
+    let mut w = World::new([oa, ob]);
+    let x = r.range(1, 0xffff_fffe);
+    for e in 0..2 {
+        let mut t = vec![s("rng"), s(x), s(x)];
+        t.extend((0..6).map(|_| s(r.range(1, 0xffff_ffff))));
+        w.stim(e, &t);
+        w.view[e].rng_left = 8;
+    }
+    let drain = |w: &mut World| { for _ in 0..4 { while w.deliver_next(0) {} while w.deliver_next(1) {} } };
+    let oe = r.below(2) as usize;
+    let pe = 1 - oe;
+    let req = w.next_req; w.next_req += 1;
+    w.stim(oe, &[s("open"), s(req), hexd(&r.bytes(2)), s(1000 + req)]);
+    drain(&mut w);
+    w.stim(pe, &[s("accept")]);
+    drain(&mut w);
+    if w.view[0].handles.is_empty() || w.view[1].handles.is_empty() { fair_completion(&mut w, 10); final_checks(&mut w); return w; }
+    // some traffic on the first incarnation, in both directions (the last frame received matters to
+    // implementations that remember "the flow of the last Push")
+    let tag = r.next() as u8;
+    for e in [oe, pe, oe] {
+        if r.chance(3, 4) {
+            let d = gen_payload(r, tag, w.view[e].handles[0].written.len());
+            let d = if d.is_empty() { vec![tag] } else { d };
+            w.stim(e, &[s("write"), s(0), hexd(&d)]);
+            drain(&mut w);
+            w.stim(1 - e, &[s("read"), s(0), s(4096)]);
+            drain(&mut w);
+        }
+    }
+    // both ends let go of it
+    match r.below(4) {
+        0 => { w.stim(oe, &[s("dropstream"), s(0)]); drain(&mut w); w.stim(pe, &[s("read"), s(0), s(4096)]); w.stim(pe, &[s("dropstream"), s(0)]); }
+        1 => { w.stim(pe, &[s("dropstream"), s(0)]); drain(&mut w); w.stim(oe, &[s("read"), s(0), s(4096)]); w.stim(oe, &[s("dropstream"), s(0)]); }
+        2 => {
+            w.stim(oe, &[s("shutdown"), s(0)]); w.stim(pe, &[s("shutdown"), s(0)]); drain(&mut w);
+            for e in 0..2 { w.stim(e, &[s("read"), s(0), s(4096)]); w.stim(e, &[s("read"), s(0), s(4096)]); }
+            w.stim(oe, &[s("dropstream"), s(0)]); w.stim(pe, &[s("dropstream"), s(0)]);
+        }
+        _ => { w.stim(oe, &[s("shutdown"), s(0)]); drain(&mut w); w.stim(pe, &[s("dropstream"), s(0)]); drain(&mut w); w.stim(oe, &[s("dropstream"), s(0)]); }
+    }
+    drain(&mut w);
+    // the id again, for a new stream opened by either side (its script yields the id once more)
+    let e2 = r.below(2) as usize;
+    let p2 = 1 - e2;
+    let req2 = w.next_req; w.next_req += 1;
+    w.stim(e2, &[s("open"), s(req2), hexd(&r.bytes(3)), s(1000 + req2)]);
+    drain(&mut w);
+    w.stim(p2, &[s("accept")]);
+    drain(&mut w);
+    let tag2 = tag.wrapping_add(101);
+    for round in 0..4 {
+        for e in [e2, p2] {
+            let Some(h) = (0..w.view[e].handles.len()).rev().find(|&h| w.view[e].handles[h].alive) else { continue };
+            if r.chance(3, 4) || round == 0 {
+                let d = gen_payload(r, tag2, w.view[e].handles[h].written.len());
+                let d = if d.is_empty() { vec![tag2] } else { d };
+                w.stim(e, &[s("write"), s(h), hexd(&d)]);
+                drain(&mut w);
+            }
+            if let Some(ph) = (0..w.view[1 - e].handles.len()).rev().find(|&h| w.view[1 - e].handles[h].alive) {
+                w.stim(1 - e, &[s("read"), s(ph), s(4096)]);
+                drain(&mut w);
+            }
+        }
+    }
+    // both writers of the new stream finish; both readers read to the end: what was written is what is read
+    if r.chance(3, 4) {
+        for e in [e2, p2] {
+            if let Some(h) = (0..w.view[e].handles.len()).rev().find(|&h| w.view[e].handles[h].alive) {
+                if w.view[e].handles[h].pending_write.is_none() { w.stim(e, &[s("shutdown"), s(h)]); }
+            }
+        }
+        drain(&mut w);
+        for e in [e2, p2] {
+            if let Some(h) = (0..w.view[e].handles.len()).rev().find(|&h| w.view[e].handles[h].alive) {
+                for _ in 0..40 {
+                    let out = w.stim(e, &[s("read"), s(h), s(4096)]);
+                    drain(&mut w);
+                    if !out.starts_with("data") { break; }
+                }
+            }
+        }
+    }
+    fair_completion(&mut w, 30);
+    final_checks(&mut w);
+    w
+}
+
 fn half_close_reply_case(r: &mut Rng, focus: Focus) -> World {
     let mut oa = gen_opts(r, focus);
     let ob = gen_opts(r, focus);
@@ -2392,7 +2507,8 @@ struct LinkReq {
 /// terminating event). Cases with injected frames or a reused flow id are not projected.
 fn link_projections(w: &World) -> Vec<(String, Vec<LinkReq>)> {
     let mut out = vec![];
-    if w.injected || w.reused || w.cancelled || w.huge {
+    // (the projection follows ONE incarnation of a flow id per case)
+    if w.injected || w.reused || w.any_reuse || w.cancelled || w.huge {
         return out;
     }
     // A receive loop parked on a full accept / bind queue leaves delivered messages unprocessed: the
@@ -2759,6 +2875,18 @@ fn main() {
             let mut r = base.fork(k);
             match catch(|| late_future_case(&mut r, focus)) {
                 Ok(w) => handle_world(w, "late-future", &mut rep, &mut drv),
+                Err(p) => rep.fail(FailKind::Impl, "harness-panic", &format!("panic outside a stimulus: {p}"), json!({})),
+            }
+        }
+    }
+    // a flow id taken again after both ends have let go of the stream that had it
+    if matches!(focus, Focus::C02 | Focus::C05 | Focus::C06 | Focus::C07) {
+        let n = match args.tier { Tier::Quick => 40, Tier::Thorough => 800 };
+        let base = Rng::new(args.seed ^ fnv(focus.name().as_bytes()) ^ 0x7265_6f70_656e);
+        for k in 0..n {
+            let mut r = base.fork(k);
+            match catch(|| reopen_same_id_case(&mut r, focus)) {
+                Ok(w) => handle_world(w, "reopen-same-id", &mut rep, &mut drv),
                 Err(p) => rep.fail(FailKind::Impl, "harness-panic", &format!("panic outside a stimulus: {p}"), json!({})),
             }
         }
